@@ -68,15 +68,15 @@ ASSUMPTIONS = ["the brute-force matcher and substitution of the harness (structu
                "function objects) define 'matches' and 'instance'; terms are ground (never contain the variable names)"]
 BUDGET = {"quick": 60, "thorough": 540}
 FLOORS = {
-    # measured on the unchanged tree (quick, seed 0): 380 980 cases, 57 711 distinct non-trivial, matches_expected 78 504,
-    # sound_yields 77 878, repeated_variable_matches 7 721, several-matching 9 056, fixed-arity matching terms 32 024
-    "quick": {"evaluations": 170000, "distinct_nontrivial": 25000,
-              "counters": {"iter_matches_calls": 170000, "rewrite_calls": 170000, "matches_expected": 35000,
-                           "sound_yields": 35000, "repeated_variable_matches": 3300,
-                           "terms_with_several_matching_rules": 4000, "fixed_arity_matching_terms": 14000,
-                           "nonmatching_terms": 140000, "rewrite_applied_matching_rule": 30000,
-                           "rewrite_left_unchanged": 135000},
-              "sets": {"matching_rule_sets": 12000}},
+    # measured (quick, seed 0, tree at 897c9b5): 294 784 cases, 46 657 distinct non-trivial, matches_expected 61 846,
+    # sound_yields 61 846, repeated_variable_matches 5 627, several-matching 6 563, fixed-arity matching terms 25 270
+    "quick": {"evaluations": 130000, "distinct_nontrivial": 21000,
+              "counters": {"iter_matches_calls": 130000, "rewrite_calls": 130000, "matches_expected": 28000,
+                           "sound_yields": 28000, "repeated_variable_matches": 2500,
+                           "terms_with_several_matching_rules": 2900, "fixed_arity_matching_terms": 11000,
+                           "nonmatching_terms": 108000, "rewrite_applied_matching_rule": 24000,
+                           "rewrite_left_unchanged": 105000},
+              "sets": {"matching_rule_sets": 8500}},
     # measured (thorough, seed 0): 4 618 072 cases, 1 011 732 distinct non-trivial, matches_expected 1 466 344,
     # sound_yields 1 459 051, repeated_variable_matches 92 401, several-matching 283 001, fixed-arity matching 304 966
     "thorough": {"evaluations": 2000000, "distinct_nontrivial": 450000,
